@@ -335,3 +335,22 @@ def trip_unrelated_cache_guard(ld):
         c = s.copy()
         a.append(list(c))
     return a
+
+
+def unrelated_cache_traffic(ld, keys):
+    """Other cache datasets of the same process that hold the SAME keys at other positions (and other lengths) are read by key,
+    by position and by iteration.  Whatever a cache remembers belongs to that one object: every other cache must behave as before."""
+    import warnings
+    keys = list(keys)
+    if not keys:
+        return
+    with warnings.catch_warnings():
+        warnings.simplefilter('ignore')
+        for order in (list(reversed(keys)), keys[1:] + keys[:1] + ['zz_extra']):
+            d = ld.new({k: ('other', i) for i, k in enumerate(order)}).map(lambda e: e).cache()
+            for k in order:
+                d[k]
+            for i in range(len(order)):
+                d[i]
+            list(d)
+            list(d.items())
